@@ -1,4 +1,4 @@
-package mast
+package file
 
 // Harness vocabulary: symbolic side. These functions have no bodies; the
 // engine intercepts calls to them. The native side is verif_native.go.
